@@ -58,6 +58,10 @@ struct DomExec {
   std::vector<std::unique_ptr<PoolA>> pools;
   WriteBuffer* wb[NWB] = {nullptr, nullptr, nullptr};
   std::vector<char*> keep;
+  std::vector<std::pair<char*, size_t>> canaries;   // bytes right behind user-supplied pool buffers
+  void check_canaries() {
+    for (auto& c : canaries) for (size_t i = 0; i < c.second; i++) if ((unsigned char)c.first[i] != 0xC5) violate("overlap", site("user_buffer_overrun"), "a pool constructed over a caller-supplied buffer wrote past the end of that buffer (" + std::to_string(c.second - i) + " byte(s) before its end were overwritten)");
+  }
   std::set<uint32_t> d5_expected;
   std::string ob;      // observation text of the current op
   int cur_op = -1;
@@ -91,6 +95,24 @@ struct DomExec {
       case FL_POOL:
         if (own) s.doc = new DPool();
         else if (plan.K("share_pool", 0) && !pools.empty()) { s.doc = new DPool(pools[0].get()); probe("documents_sharing_one_pool"); }
+        else if (plan.K("user_buffer_pool", 0)) {
+          // pool over a caller-supplied buffer that ends at a guard page and starts misaligned by 0..7 bytes
+          size_t mis = (size_t)(plan.K("user_buffer_pool", 1) - 1);
+          static const size_t sizes[] = {88, 96, 104, 120, 200, 1000, 3000};   // after lead, misalignment, end gap and alignment padding at least 56+8 bytes must remain (documented precondition)
+          size_t bsz = sizes[mix64(seed ^ pools.size()) % 7] + (mix64(seed ^ 77) % 8);
+          char* buf = simmem::caller_buf(std::string(bsz + 8, 'U').data(), bsz + 8, simmem::PL_END);   // buf+bsz+8 is the page end
+          keep.push_back(buf);
+          size_t lead = ((uintptr_t)buf & 7) ? 8 - ((uintptr_t)buf & 7) : 0;   // make buf+lead 8-aligned, then add the wanted misalignment
+          char* ub = buf + lead + mis;
+          // the buffer ends e bytes (0..7) before the guard page; those bytes are a canary the pool must never touch
+          size_t e = (size_t)(mix64(seed ^ 0xE0D) % 8);
+          size_t usable = (size_t)(buf + bsz + 8 - ub) - e;
+          memset(ub + usable, 0xC5, e);
+          canaries.push_back({ub + usable, e});
+          pools.emplace_back(new PoolA(ub, usable, pool_chunk_cap(), nullptr));
+          s.doc = new DPool(pools.back().get());
+          probe(mis ? "pool_over_misaligned_user_buffer" : "pool_over_user_buffer");
+        }
         else { pools.emplace_back(new PoolA(pool_chunk_cap())); s.doc = new DPool(pools.back().get()); }
         break;
       case FL_SIMPLE: s.doc = new DSimple(); break;
@@ -253,7 +275,7 @@ struct DomExec {
       simmem::set_op((int)i, (int)(fnv1a(op.kind.data(), op.kind.size()) & 0x7fff));
       bool done = exec_op(op);
       drain_pending(site("ledger"));
-      if (done) { rr.executed++; check_all_docs("after"); drain_pending(site("ledger")); }
+      if (done) { rr.executed++; check_all_docs("after"); drain_pending(site("ledger")); check_canaries(); }
       else { rr.skipped++; ob = "skip"; }
       rr.outcome_vec = mix64(rr.outcome_vec ^ fnv1a(ob.data(), ob.size() < 16 ? ob.size() : 16));
       rr.op_hashes.push_back(fnv1a(ob.data(), ob.size()));
@@ -727,6 +749,19 @@ struct DomExec {
       N* r = n.AtPointer(jp);
       const N* cr = cn.AtPointer(jp);
       const JVal* want = model::pointer(m, path);
+      // with duplicate keys AND a lookup map on the way, the multimap may return either duplicate: the statement
+      // restricts the map claim to distinct keys, so only self-consistency is judged then
+      bool ambiguous = false;
+      {
+        const JVal* cur = &m;
+        for (auto& e : path) {
+          if (!cur) break;
+          if (!e.is_index && cur->k == JVal::Obj && (cur->has_map || s.may_map) && cur->count_key(e.key) > 1) ambiguous = true;
+          std::vector<model::PathElem> one{e};
+          cur = model::pointer(*cur, one);
+        }
+      }
+      if (ambiguous) { if (r != cr) violate("model", site("const"), "const and non-const AtPointer disagree"); probe("atpointer_ambiguous_dup_with_map"); ob = "apx"; return true; }
       if ((r != nullptr) != (want != nullptr) || r != cr)
         violate("model", site("resolve"), std::string("AtPointer ") + (r ? "resolved" : "did not resolve") + " but the model " + (want ? "does" : "does not"));
       if (r) { std::string g = walk_str(*r); if (g != model::canon(*want)) violate("model", site("value"), "AtPointer returned another node than the model's"); probe("atpointer_hit"); }
